@@ -112,4 +112,14 @@ PROPS = {
         "exhaustive": {"quick": True, "thorough": True},
         "floor": {"quick": 1000, "thorough": 20000},
     },
+    "C15": {
+        "modes": ["dbg", "rel"],
+        "level": "exploration",
+        "technique": "runtime monitoring: differential oracle - every AUTHENTICATE token built by the real Ntlm object is verified by an independent MS-NLMP server implementation (own MD4/RC4/HMAC, MS-NLMP test vectors)",
+        "level_text": "For generated accounts (Unicode domain/user/password incl. empty, long, mixed case, non-BMP), 8-byte challenges, target-info blocks (any subset/order of AV pairs with lengths 0..300 and a timestamp) and negotiated flag sets (with/without VERSION, UNICODE or OEM, 56, ALWAYS_SIGN, TARGET_TYPE), the client's NEGOTIATE and AUTHENTICATE are produced by the real code (from the password and from the NT hash) and checked by refs::ntlm::verify_authenticate: field table in bounds and non-overlapping, names decode to the account, NT proof, temp structure with the server's AV pairs and timestamp, LM proof, key exchange unwrap, MIC over the three messages. The verifier is first exercised against a reference client (accept honest, reject corrupted).",
+        "level_note": "Trusted: refs::ntlm (NTOWFv2, HMAC-MD5, RC4, MD4 checked against RFC 1320 / MS-NLMP 4.2.4 vectors). OEM names restricted to ASCII. NTLMSSP_NEGOTIATE_128 and KEY_EXCH always negotiated. Names whose simple and full upper-casing differ are generated in a class whose rejections are recorded as observations only.",
+        "rule": ("cases = (domain, user, password, from-hash?, flags, server challenge, target name, target info); classes: unicode-names, oem-charset, no-version-flag, mixed-case, special-uppercasing, flag-variants; all non-trivial; distinct = hash of the case."),
+        "assumptions": ["a missing trailing Z(4) in temp is recorded as an observation, not judged (servers verify the proof over the bytes sent)"],
+        "floor": {"quick": 10000, "thorough": 1000000},
+    },
 }
